@@ -90,8 +90,10 @@ async fn delete_consumer_offset(
     State(state): State<Arc<AppState>>,
     Extension(identity): Extension<Identity>,
     Path((stream_id, topic_id, consumer_id)): Path<(String, String, String)>,
-    query: Query<DeleteConsumerOffset>,
+    mut query: Query<DeleteConsumerOffset>,
 ) -> Result<StatusCode, CustomError> {
+    query.stream_id = Identifier::from_str_value(&stream_id)?;
+    query.topic_id = Identifier::from_str_value(&topic_id)?;
     let consumer = Consumer::new(consumer_id.try_into()?);
     let system = state.system.read().await;
     system
